@@ -214,6 +214,8 @@ def suite_indices(seed, tier):
     for m, od, ot in zip(meta, out_d, out_t):
         if od.strip() != "true":
             r.bad.append({"suite": "indices", "what": "Dunn differs from Model/Analysis.v", **m})
+        if type(ot).__name__ == "Neutral":       # the model could not be evaluated (reported by the pipeline)
+            continue
         chi_t, (dbi_rows, dbi_M) = parse_coq(ot)
         ex = exact_chi(chi_t, m["N"])
         if ex is not None and not math.isclose(m["vals"]["chi"], float(ex), rel_tol=1e-9, abs_tol=1e-12):
